@@ -30,7 +30,9 @@ CONSTANTS NW,        \* number of workers
           MaxPid,    \* process ids are 0..MaxPid-1
           MaxFuel,   \* largest number of script operations attempted in one slice
           Placement, \* "mod": pid % NW as the code does; "any": every placement
-          Defects    \* subset of DefectNames: pre-fix behaviours switched on
+          Defects,   \* subset of DefectNames: pre-fix behaviours switched on
+          IOModes    \* how the effect backend answers: "now" (immediate completion) and/or "later" (the completion
+                     \* is returned by process_completions at a later Environment::step)
 
 DefectNames == {"replace_responses",   \* environment.rs handle_process_results overwrote a worker's earlier answer
                 "stale_awaiting",      \* executor/worker: awaiting entries outlived their select
@@ -52,7 +54,7 @@ VARIABLES
   effecting,  \* [Workers -> SUBSET Pid]           Executor.effecting
   nextRef,    \* [Workers -> Nat]                  Executor.next_ref
   owner,      \* resource -> owning pid            Environment.resource_ownership (association list)
-  backend,    \* [open: SUBSET Nat, next: Nat]     the effect backend's registry
+  backend,    \* [open: SUBSET Nat, next: Nat, inflight: Seq(completion)]   the effect backend
   proc,       \* [Pids -> process record]          Executor.processes (of the hosting worker)
   router,     \* [allocated pids -> Workers]       Environment.process_router
   nextPid,    \*                                   Environment.next_process_id
@@ -552,16 +554,38 @@ EnvHandle(w) ==
                                      owner |-> IF e.res # None /\ AHas(owner, e.res[1])
                                                THEN Some(AGet(owner, e.res[1])) ELSE None,
                                      created |-> IF e.op = "open" THEN Some(newRes) ELSE None, ok |-> okk]
-                       IN /\ backend' = CASE e.op = "open" -> [open |-> backend.open \cup {newRes}, next |-> newRes + 1]
-                                           [] e.op = "close" /\ isOpen -> [backend EXCEPT !.open = @ \ {e.res[1]}]
-                                           [] OTHER -> backend
-                          /\ owner' = IF e.op = "open" THEN APut(owner, newRes, e.p) ELSE owner
-                          /\ obs' = [obs EXCEPT !.backend = Append(@, entry)]
-                          /\ cmdQ' = Send(cmdQ, router[e.p],
-                                          IF okk THEN [t |-> "EffectCompletion", p |-> e.p, ok |-> TRUE, v |-> val]
-                                          ELSE [t |-> "EffectCompletion", p |-> e.p, ok |-> FALSE,
-                                                e |-> "Invalid argument: closed"])
+                           done == IF okk THEN [t |-> "EffectCompletion", p |-> e.p, ok |-> TRUE, v |-> val]
+                                   ELSE [t |-> "EffectCompletion", p |-> e.p, ok |-> FALSE, e |-> "Invalid argument: closed"]
+                           be1 == CASE e.op = "open" -> [backend EXCEPT !.open = @ \cup {newRes}, !.next = newRes + 1]
+                                    [] e.op = "close" /\ isOpen -> [backend EXCEPT !.open = @ \ {e.res[1]}]
+                                    [] OTHER -> backend
+                       IN /\ obs' = [obs EXCEPT !.backend = Append(@, entry)]
+                          /\ \E mode \in IOModes :
+                               IF mode = "now"
+                               THEN \* handle_effect_completion at once: a created resource is registered to the requester
+                                    /\ backend' = be1
+                                    /\ owner' = IF e.op = "open" THEN APut(owner, newRes, e.p) ELSE owner
+                                    /\ cmdQ' = Send(cmdQ, router[e.p], done)
+                               ELSE \* the backend keeps the completion until the next process_completions()
+                                    /\ backend' = [be1 EXCEPT !.inflight = Append(@, done)]
+                                    /\ UNCHANGED <<owner, cmdQ>>
      /\ UNCHANGED <<runq, spawning, selecting, awaited, awaitersFor, resultReq, effecting, nextRef, proc, now>>
+
+\* Environment::step begins with effect_backend.process_completions(): every completion the backend has
+\* ready is handled (handle_effect_completion), in order
+RECURSIVE Deliver(_, _, _)
+Deliver(q, ow, cs) ==
+  IF cs = <<>> THEN <<q, ow>>
+  ELSE LET c == Head(cs) IN
+       Deliver(Send(q, router[c.p], c),
+               IF c.ok /\ c.v.k = "res" THEN APut(ow, c.v.r, c.p) ELSE ow, Tail(cs))
+
+EnvCompletions ==
+  /\ backend.inflight # <<>>
+  /\ LET d == Deliver(cmdQ, owner, backend.inflight) IN cmdQ' = d[1] /\ owner' = d[2]
+  /\ backend' = [backend EXCEPT !.inflight = <<>>]
+  /\ UNCHANGED <<evtQ, runq, spawning, selecting, awaited, awaitersFor, resultReq, effecting, nextRef,
+                 proc, router, nextPid, pending, now, outcome, obs>>
 
 TickAny(d) ==
   /\ now + d <= MaxTick
@@ -591,7 +615,7 @@ InitState(entry) ==
    effecting |-> [w \in Workers |-> {}],
    nextRef |-> [w \in Workers |-> 0],
    owner |-> <<>>,
-   backend |-> [open |-> {}, next |-> 1],
+   backend |-> [open |-> {}, next |-> 1, inflight |-> <<>>],
    \* the REPL's persistent process exists and sleeps (environment.rs start_process(None))
    proc |-> [p \in Pids |-> IF p = 0
                             THEN [NewProc(0, EmptyRegs, TRUE, <<>>) EXCEPT !.result = Some(OkR(Nil))]
@@ -617,7 +641,7 @@ Init ==
 
 WorkerAct == \E w \in Workers : \E k \in 0..Len(cmdQ[w]), fuel \in 0..MaxFuel : WorkerStep(w, k, fuel)
 EnvAct == \E w \in Workers : EnvHandle(w)
-Next == WorkerAct \/ EnvAct \/ Tick(1)
+Next == WorkerAct \/ EnvAct \/ EnvCompletions \/ Tick(1)
 
 Spec == Init /\ [][Next]_vars
 =============================================================================
